@@ -255,6 +255,11 @@ def check(ctx):
             dist["paired" if paired else "single"] = dist.get("paired" if paired else "single", 0) + 1
             if ok and k < 40:
                 ctx.sample({"argv": [a.replace(d, "$D") for a in case_argv(case, d)][:30], "records": len(case["records"])})
+        # records so long that the chunked reader hands out chunks of a single record (interleaved FASTA keeps mates together)
+        from . import c19
+        ld = os.path.join(d, "long")
+        os.makedirs(ld, exist_ok=True)
+        c19.part_long_records(ctx, ld, dist)
     finally:
         shutil.rmtree(d, ignore_errors=True)
     ctx.coverage["rule"] = (
@@ -283,6 +288,9 @@ def case_from_doc(doc):
 
 def replay(doc):
     r = doc["replay"]
+    if r.get("kind") == "long":
+        from . import c19
+        return c19.replay(doc)
     case = case_from_doc(r)
     d = scratch("c06-replay")
     try:
